@@ -715,7 +715,7 @@ async def wait_for(duration: int | Unsigned | Duration, *, allow_zero: bool = Fa
         cnt = duration
 
     if allow_zero:
-        if duration == 0:
+        if cnt == 0:
             return
     else:
         assert (
